@@ -1028,6 +1028,9 @@ def run_isohist(inp):
     for i, st in enumerate(inp["steps"]):
         M = toarr(st["M"])
         op = st["op"]
+        # keep the history well conditioned: cond(sl2_to_so21(A)) grows like |A|^4, and inv / sqrt then lose digits legitimately
+        if op in ("mul_right", "mul_left") and max(np.max(np.abs(cur @ M)), np.max(np.abs(M @ cur))) > 12:
+            op = "set"
         what = "step %d: %s" % (i, op)
         if op == "mul_right":           # (X @ Y).proj_data = Y.data · X.data, i.e. the lift of X @ Y is lift(X)·lift(Y)
             other = _mk_iso(M, st["ctor"])
